@@ -18,7 +18,7 @@ const edPkg = "common/ed25519"
 func c16(c *eng.Ctx, r *eng.Report) {
 	r.Explain = "Structural necessary conditions of VRF completeness under header transport and of a deterministic quality number, decided on the SSA of common/ed25519/vrf.go, consensus/vrf and consensus/logical/vrf_with_stake.go: " +
 		"R16.1 on the verification and qualification paths a proof is left-padded to 80 bytes before it is decoded or its lottery output is read, and both padding helpers right-align the shortened proof (`copy(buf[80-len(pi):], pi)`) and only skip proofs that are already full length; " +
-		"R16.2/R16.5 neither proof generation nor verification consults randomness, the clock, a cache or any package-level mutable state, so proving is deterministic and the verdict is a function of (key, proof, message); " +
+		"R16.2/R16.5 neither proof generation nor verification consults randomness, the clock, a cache or any package-level mutable state, so proving is deterministic and the verdict is a function of (key, proof, message) — and of the header's height, never of the node's own chain position (no common.GetBlockHeight()/IsProposalNNN() in the cone); " +
 		"R16.3 ECVRFVerify returns true only as the comparison of the recomputed challenge with the proof's c, after the proof decoded without error, and the message and key passed to hashToCurve are the function's own arguments; " +
 		"R16.4 the quality number is floor(ratio/step)+1 with the stake ratio clamped to 1, and qualification is `valueRatio < stakeRatio`; " +
 		"R16.7 the lottery output (the encoding of Gamma) is unique: ECVRFVerify accepts only after the decoded Gamma passed the prime-order-subgroup test, which multiplies by the group order l; " +
@@ -157,6 +157,16 @@ func c16Purity(c *eng.Ctx, r *eng.Report) {
 				}
 				hits++
 				r.Fail(spec.rule, h.Kind+":"+eng.FuncName(fn), c.Pos(h.Pos), h.Detail+" in the cone of "+spec.what+" ("+cone.PathTo(fn)+"): the result then depends on process history or chance, not only on its arguments")
+			}
+			// the node's own chain position is process state too: a fork switch decided by common.GetBlockHeight()
+			// (directly or through an IsProposalNNN() helper) makes the verdict on a header depend on where the
+			// verifying node currently stands, not on the header's height
+			for _, st := range eng.Sites(fn) {
+				nm := st.Name()
+				if nm == "common.GetBlockHeight" || (strings.HasPrefix(nm, "common.IsProposal") && !strings.Contains(nm, "$")) {
+					hits++
+					r.Fail(spec.rule, "node-height:"+eng.FuncName(fn), c.Pos(st.Pos()), nm+"() in the cone of "+spec.what+" ("+cone.PathTo(fn)+") reads the node's current chain height: whether a proof qualifies (and its qn) then changes with the verifier's own position — a node syncing across the fork height, or checking an old or fork block, disagrees with the proposer")
+				}
 			}
 		}
 		if hits == 0 {
